@@ -50,6 +50,18 @@ Theorem C18_stir_model_is_the_source :
 Proof. exact stir_model_is_the_source. Qed.
 Print Assumptions C18_stir_model_is_the_source.
 
+(* the same for 60 SUCCESSIVE stirs from each initial condition (measured by calling the callback 60 times in a row,
+   i.e. far past the 15 stirs after which the maximum is reached): the interval VARIABLE itself — not only the delay that
+   is armed — follows the model and stays within [1, maximum]; together with C18_stir_always_pending (which holds for
+   every number of stirs) nothing can build up behind the cap *)
+Theorem C18_stir_sequences_are_the_source :
+  stir_seq 60 (stir_start 132) = stir_seq_first_start /\
+  stir_seq 60 (stir_start (random_bytes_wanted + 4)) = stir_seq_seeded /\
+  Forall (fun p => 1 <= fst p <= stir_max_secs /\ 1000 <= snd p <= stir_max_secs * 1000)
+         (stir_seq_first_start ++ stir_seq_seeded).
+Proof. exact stir_sequences_are_the_source. Qed.
+Print Assumptions C18_stir_sequences_are_the_source.
+
 (* on timer.c: for every seeding state random_init makes exactly one set of the stir callback, at least a second
    ahead, so `inst c st = 1` — the premise of C18_periodic_forever ("exactly one instance pending, detached or owed
    by the running callback along every run, for every clock reading") — holds from the start *)
